@@ -283,6 +283,8 @@ fn gen_selector(rng: &mut Rng, tree: &[Node]) -> Option<String> {
                     let c = e
                         .attr("class")
                         .and_then(|v| v.split_ascii_whitespace().next().map(|s| s.to_string()))
+                        // selectors stay inside the forms the reference evaluates: plain ASCII identifiers
+                        .filter(|c| !c.is_empty() && c.bytes().all(|b| b.is_ascii_alphanumeric()))
                         .filter(|_| rng.chance(2, 3))
                         .unwrap_or_else(|| "nope".to_string());
                     Some(format!("{tag}.{c}"))
